@@ -1,0 +1,27 @@
+//go:build verif
+
+package consoleui
+
+// VerifSuidProcessCommand runs the unexported UI.processCommand: it reads one
+// line from the line reader and executes it in the current mode (verification
+// harness only, build tag verif).
+func (c *UI) VerifSuidProcessCommand() error { return c.processCommand() }
+
+// VerifSuidModeNames returns the names of the modes on the mode stack, the
+// bottom mode first.
+func (c *UI) VerifSuidModeNames() []string {
+	names := make([]string, len(c.modeStack))
+	for i, m := range c.modeStack {
+		names[i] = m.name
+	}
+	return names
+}
+
+// VerifSuidTopMode returns the mode on top of the mode stack; ok is false for
+// an empty stack.
+func (c *UI) VerifSuidTopMode() (m Mode, ok bool) {
+	if len(c.modeStack) == 0 {
+		return nil, false
+	}
+	return c.mode().mode, true
+}
